@@ -14,15 +14,15 @@ theorem encryptZeroSym_seeded_shape {l : Level} {sk : Array Int} {a e : RnsPoly}
   unfold encryptZeroSym at h
   simp only [hs] at h
   obtain ⟨c0a, _, h⟩ := c01p_bind_ok h
-  obtain ⟨noise, _, h⟩ := c01p_bind_ok h
-  obtain ⟨c0b, _, h⟩ := c01p_bind_ok h
-  obtain ⟨c0c, _, h⟩ := c01p_bind_ok h
-  refine ⟨c0c, ?_⟩
-  have h' : (Except.ok (⟨#[c0c, if (!isNtt && !true) = true then rnsIntt l (if (isNtt || !true) = true then a else rnsNtt l a) else a],
-      isNtt, 1⟩ : Ct) : R Ct) = .ok z := h
-  injection h' with h'
-  rw [← h']
-  simp
+  split at h <;>
+  · obtain ⟨noise, _, h⟩ := c01p_bind_ok h
+    obtain ⟨c0b, _, h⟩ := c01p_bind_ok h
+    obtain ⟨c0c, _, h⟩ := c01p_bind_ok h
+    refine ⟨c0c, ?_⟩
+    have h' : (Except.ok _ : R Ct) = .ok z := h
+    injection h' with h'
+    rw [← h']
+    simp
 
 theorem encryptZeroInternal_seeded_shape {l : Level} {sk : Array Int} {a e : RnsPoly} {z : Ct}
     (hs : seedSaved l true = true) (h : encryptZeroInternal l (.sym sk a e true) = .ok z) :
